@@ -70,17 +70,17 @@ def parseSpec (spec0 : Text) : Option (List Req) :=
 def satisfiesReq (r : Req) (version : Version) : Bool :=
   match r with
   | .caret v =>
-    if lt version v then false
+    if plt version v then false
     else if v.major == 0 then
       if v.minor == 0 then version.major == 0 && version.minor == 0 && version.patch == v.patch
       else version.major == 0 && version.minor == v.minor
     else version.major == v.major
-  | .tilde v => ge version v && version.major == v.major && version.minor == v.minor
-  | .exact v => version == v
-  | .gte v => ge version v
-  | .gt v => gt version v
-  | .lte v => le version v
-  | .lt v => lt version v
+  | .tilde v => pge version v && version.major == v.major && version.minor == v.minor
+  | .exact v => peq version v
+  | .gte v => pge version v
+  | .gt v => pgt version v
+  | .lte v => ple version v
+  | .lt v => plt version v
   | .any => true
   | .wildcardMajor m => version.major == m
   | .wildcardMinor m n => version.major == m && version.minor == n
@@ -115,7 +115,7 @@ def compareToLatest (current latest : Text) : CompareResult :=
       if satisfies spec l then .latest
       else match baseVersion spec with
         | none => .latest
-        | some base => if lt base l then .outdated else .newer
+        | some base => if plt base l then .outdated else .newer
 
 def matcher : Matcher := ⟨versionExists, compareToLatest⟩
 
